@@ -371,6 +371,16 @@ func init() {
 				tc.Keys, tc.Kind = []string{randBytes(r, r.Intn(4))}, "single"
 				tc.IDs = genValueIDs(r, 1, r.Intn(VKindCnt))
 			}
+			if i%10 == 5 {
+				// the label bitmaps end exactly on a word boundary with a set bit: the
+				// total node count read by initLevels depends on the last bit itself
+				if d := directedInnersFull(r, id, 600); d != nil {
+					vk := r.Intn(VKindCnt)
+					d.IDs, d.VKind = genValueIDs(r, len(d.Keys), vk), vkindNames[vk]
+					d.Enc = tc.Enc
+					tc = d
+				}
+			}
 			if legacy {
 				tc.Enc = []string{"I32", "U32"}[r.Intn(2)]
 				tc.IDs = c06ValueIDs(r, len(tc.Keys))
